@@ -89,6 +89,11 @@ func GenReg(seed, run uint64, tier, mode string) *plan.Plan {
 	for i := 0; i < nshared; i++ {
 		p.Shared = append(p.Shared, GenDec(r, wide))
 	}
+	// related operands (same digit count / neighbouring exponent)
+	for i := r.Intn(3); i > 0; i-- {
+		p.Shared = append(p.Shared, Sibling(r, p.Shared[r.Intn(len(p.Shared))]))
+		nshared++
+	}
 	var tk plan.Task
 	nregs := r.Range(3, 6)
 	for i := 0; i < nregs; i++ {
